@@ -293,6 +293,10 @@ class Values(Family):
         unknown = any(u.eq(v) for u in ex.unknown_vals)
         made = made_by(ex, v)
         ex.prove('C02:%s:result-is-plain-data' % fname(ex), ['C02'], parts['C02'], watch)
+        # C01 (and C09): everything a program does happens while it is evaluated - no iterator / generator / view whose
+        # elements are computed after the call has returned
+        lazy = z3.And(L.is_Opaque(v), z3.Or([Val.okind(v) == L.OK[k] for k in ('iterator', 'generator', 'view')]))
+        ex.prove('C01:%s:result-holds-no-deferred-computation' % fname(ex), ['C01', 'C09'], z3.Not(lazy), watch)
         ex.prove('C17:%s:result-never-aliases-the-tree' % fname(ex), ['C17'], parts['C17'], watch)
         ex.prove('C10:%s:builtin-table-does-not-escape' % fname(ex), ['C10'], parts['C10'], watch)
         ex.prove('C03:%s:result-within-cap[%s]' % (fname(ex), made), ['C03'], parts['C03'], watch, soft=True)
@@ -337,12 +341,24 @@ class Values(Family):
             # C13: W1
             if self.role == 'builtin' and self.is_mutator is False:
                 ex.prove('C13:%s:writes-only-objects-it-allocated[%s]' % (fn, wkind), ['C13'], fresh, info, soft=True)
+        elif kind == 'dict_subscript':
+            if self.role == 'builtin' and self.is_mutator is False and self.builtin_name != '__getitem__':
+                _, r, key, fresh, present = ev
+                # only the mappings the builtin was GIVEN (its own parameters), not whatever a callback is applied to
+                is_arg = any(isinstance(a, z3.ExprRef) and ex.same(a, L.DictV(r)) for a in self.ctx.get('args', []))
+                if is_arg:
+                    ex.prove('C13:%s:a-mapping-argument-is-subscripted-only-where-the-key-is-present' % fname(ex), ['C13'],
+                             z3.BoolVal(bool(present)), soft=True)
         elif kind == 'unknown_call':
             fn = fname(ex)
             ex.prove('C02:%s:no-unmodelled-call[%s]' % (fn, ev[1]), ['C02'], False, {'call': ev[1]})
             if (self.role == 'builtin' and self.is_mutator is False) or self.role in ('op_override', 'closure'):
                 # code without a contract or stub may change any container it can reach
                 ex.prove('C13:%s:no-unmodelled-call[%s]' % (fn, ev[1]), ['C13', 'C12', 'C14'], False, {'call': ev[1]})
+            if self.role in ('op_override', 'closure', 'op_base_as_node') and not str(ev[1]).endswith('-on-opaque'):
+                # ... and, inside the evaluator, the tree it is walking and the VM state
+                ex.prove('C17:%s:no-unmodelled-call-inside-the-evaluator[%s]' % (fn, ev[1]), ['C17', 'C11', 'C06', 'C07', 'C01', 'C10'], False,
+                         {'call': ev[1]})
         elif kind == 'forbidden_call':
             ex.prove('C02:%s:no-io-or-dynamic-code[%s]' % (fname(ex), ev[1]), ['C02'], False, {'call': ev[1]})
         elif kind == 'field_write':
@@ -350,7 +366,7 @@ class Values(Family):
             allowed = ex.task.allowed_field_writes if hasattr(ex.task, 'allowed_field_writes') else ()
             if name not in allowed:
                 ex.prove('C17:%s:writes-no-field-of-a-pre-existing-object[%s]' % (fname(ex), name),
-                         ['C17', 'C11', 'C01'], ex.is_fresh(ref), {'watch': {'object': ref}})
+                         ['C17', 'C11', 'C01', 'C06', 'C07'], ex.is_fresh(ref), {'watch': {'object': ref}})
 
 
 # ---------------------------------------------------------------------------------------
